@@ -264,6 +264,8 @@ impl Transaction {
 
 		// Get the current visible sequence number as our start point.
 		let start_seq_num = core.seq_num();
+		#[cfg(feature = "verif")]
+		crate::verif::yield_sync("txn.new.post_load");
 
 		// Register this txn's start_seq with the GC watermark tracker.
 		// Both read-write and write-only txns register here (write-only txns
@@ -272,6 +274,8 @@ impl Transaction {
 		// strictly monotonic, so this load-then-register sequence cannot
 		// cause GC to advance past our start_seq.
 		let txn_guard = Some(core.active_txn_tracker.register(start_seq_num));
+		#[cfg(feature = "verif")]
+		crate::verif::yield_sync("txn.new.post_register");
 
 		let mut snapshot = None;
 		if !mode.is_write_only() {
